@@ -57,6 +57,7 @@ if [ -n "${SEED_SCRATCH:-}" ]; then
       [ $e -ge 2 ] && detected="$detected $p(exit$e)"
     done
   fi
+  mkdir -p $dst/replays; cp $sc/verif/replays/*.json $dst/replays/ 2>/dev/null; sed -i "s#/verif/replays/#/verif/seeded/$id/replays/#g" $dst/check_with_patch.log
   rm -rf $sc
 elif git -C /repo apply $src/patch.diff; then
   for p in $prop $extra; do
